@@ -52,6 +52,13 @@ RACE_PATTERNS = {
     "C04-race-snapshot-waitgroup-and-counters": [r"^lib/statisticsPusher/statistics\.New\w+$"],
 }
 ORPHAN = "C04-orphaned-out-of-order-list"
+REENTRY = "C04-reentrant-engine-rlock"
+# engine / partition level (coq/C04/Eng.v, harness/cmd/c04/eng.go): operations by the names of the harness -> EngCorr.opname
+ENG_OPS = [("query", "Oquery"), ("write", "Owrite"), ("raftlookup", None), ("dropmst", "Odropmst"), ("delmst", "Odelmst"),
+           ("flush", "Oflush"), ("dropdb", "Odropdb"), ("close", "Oclose"), ("delshard", "Odelshard")]
+ENG_LOCKS = [("emu", 1), ("pmu", 2), ("smu", 3)]
+ENG_REENTRY_OPS = ["query", "write", "raftlookup", "dropmst", "delmst", "flush"]
+ENG_FINALES = ["close", "dropdb"]
 ALWAYS_VIOLATION = {"duplicate-point", "torn-row", "value-never-written", "malformed-row", "panic", "close-deadlock",
                     "post-close-hang", "write-error", "query-error", "close-error", "harness"}
 LOST_KINDS = {"missing-acked-point", "stale-value", "point-disappeared"}
@@ -374,6 +381,185 @@ def run_sched_cases(ck, binp, cases):
     return outs
 
 
+# ------------------------------------------------------------------------------------------------------------------
+# engine / partition level
+
+def eng_model_tables(ck):
+    """what the Coq machine predicts for the probes: lock footprints, re-entry outcomes, drain observables"""
+    names = ["Oquery", "Owrite", "Oraft", "Oraft_current", "Odropmst", "Odelmst", "Oflush", "Odropdb", "Oclose", "Odelshard"]
+    rnames = ["Oquery", "Owrite", "Oraft", "Oraft_current", "Odropmst", "Odelmst", "Oflush"]
+    txt = ("From Coq Require Import List Arith.\nFrom OG Require Import C04.Model C04.Eng C04.EngCorr.\nImport ListNotations.\n"
+           "Definition FP := Eval vm_compute in map fp_row [%s].\nPrint FP.\n"
+           "Definition RE := Eval vm_compute in map re_row [%s].\nPrint RE.\n"
+           "Definition DR := Eval vm_compute in [drain_expect; drain_timeout_expect].\nPrint DR.\n"
+           % ("; ".join(names), "; ".join(rnames)))
+    rc, out = ck.coq_eval("eng_tables", txt, timeout=600)
+    tabs = {}
+    for nm in ("FP", "RE", "DR"):
+        m = re.search(r"%s\s*=\s*(\[.*?\])\s*:\s*list" % nm, out, re.S)
+        if rc != 0 or not m:
+            ck.broken.append("engine-level model evaluation failed (%s): %s" % (nm, out[-300:]))
+            return None
+        tabs[nm] = parse_nested(m.group(1))
+    return {"fp": dict(zip(names, tabs["FP"])), "re": dict(zip(rnames, tabs["RE"])), "drain": tabs["DR"][0], "timeout": tabs["DR"][1]}
+
+
+def eng_probe_list():
+    probes = []
+    for op, _ in ENG_OPS:
+        for lock, _k in ENG_LOCKS:
+            for mode in ("W", "R"):
+                probes.append({"kind": "footprint", "op": op, "lock": lock, "mode": mode})
+    for op in ENG_REENTRY_OPS:
+        for fin in ENG_FINALES:
+            probes.append({"kind": "reentry", "op": op, "fin": fin})
+    probes.append({"kind": "drain", "op": "wait"})
+    probes.append({"kind": "drain", "op": "timeout"})
+    for i, p in enumerate(probes):
+        p["id"] = i
+    return probes
+
+
+def run_eng_probes(ck, binp, probes):
+    path = os.path.join(ck.work, "eng_probes.jsonl")
+    with open(path, "w") as f:
+        for p in probes:
+            f.write(json.dumps(p) + "\n")
+    rc, out = ck.run([binp, "eng", path], timeout=1800)
+    outs = {}
+    done = False
+    started = None
+    for l in out.splitlines():
+        if l.startswith('{"kind":"eng"'):
+            o = json.loads(l)
+            outs[o["id"]] = o
+        elif l.startswith('{') and '"kind":"start"' in l:
+            started = json.loads(l)["id"]
+        elif l.startswith('{') and '"kind":"done"' in l:
+            done = True
+    m = re.search(r"(panic: .*|fatal error: .*)", out)
+    if not done and m and started is not None and started not in outs and started < len(probes):
+        i0 = out.index(m.group(1))
+        ck.violation({"kind": "engine-probe-crash", "what": "the process crashed during engine-level probe %s: %s" % (json.dumps(probes[started]), m.group(1)),
+                      "probe": probes[started], "output": out[i0:i0 + 5000]})
+        return outs
+    if rc != 0 or not done or len(outs) != len(probes):
+        ck.broken.append("engine-level probe harness failed rc=%d probes=%d/%d: %s" % (rc, len(outs), len(probes), out[-800:]))
+    return outs
+
+
+def fp_code(o, lockidx):
+    """observed footprint code in the encoding of EngCorr.enc_fp"""
+    if not o.get("blocked"):
+        return 0
+    w = o.get("where", "")
+    return 1 + 2 * lockidx + (1 if w.startswith("W@") else 0)
+
+
+def in_reentry_signature(o):
+    """signature of C04-reentrant-engine-rlock: re-entry probe of the partition lookup of WriteToRaft
+    (EngineImpl.checkAndGetDBPTInfo): after the stall inside DBPTInfo.ref the operation waits in EngineImpl.unrefDBPT for
+    EngineImpl.mu.RLock while the finale waits for EngineImpl.mu.Lock"""
+    p = o.get("probe", {})
+    obs = o.get("obs") or {}
+    return (p.get("kind") == "reentry" and p.get("op") == "raftlookup" and o.get("blocked")
+            and "(*EngineImpl).unrefDBPT" in o.get("where", "") and o.get("where", "").startswith("R@")
+            and str(obs.get("finale_after_release", "")).startswith("W@") and "(*EngineImpl)" in str(obs.get("finale_after_release", "")))
+
+
+def eng_level(ck, binp, only=None):
+    """engine / partition level correspondence + direct oracle (no deadlock, no crash, references protect)"""
+    model = eng_model_tables(ck)
+    if model is None:
+        return None
+    probes = eng_probe_list() if only is None else only
+    outs = run_eng_probes(ck, binp, probes)
+    lockidx = dict(ENG_LOCKS)
+    coqname = dict(ENG_OPS)
+    n_ok = 0
+    variant = None
+    mism = []
+    for p in probes:
+        o = outs.get(p["id"])
+        if o is None:
+            continue
+        err = o.get("err") or ""
+        if "PANIC" in err:
+            ck.violation({"kind": "engine-probe-panic", "what": err[:4000], "probe": p})
+            continue
+        if "did not finish" in err or "did not return" in err or "did not give up" in err:
+            ck.violation({"kind": "engine-deadlock", "what": "engine-level probe %s: %s" % (json.dumps(p), err[:4000]), "probe": p})
+            continue
+        if err:
+            ck.broken.append("engine-level probe %s could not be carried out: %s" % (json.dumps(p), err[:300]))
+            ck.nofail_detail = {"kind": "engine-probe", "probe": p, "harness": o}
+            continue
+        if p["kind"] == "footprint":
+            got = fp_code(o, lockidx[p["lock"]])
+            col = 2 * (lockidx[p["lock"]] - 1) + (0 if p["mode"] == "W" else 1)
+            cands = [coqname[p["op"]]] if coqname[p["op"]] else ["Oraft", "Oraft_current"]
+            if any(model["fp"][c][col] == got for c in cands):
+                n_ok += 1
+            else:
+                mism.append((p, o, "lock footprint: the model says code %s, the engine shows %d (0 = finishes, else 1+2*lock+writer)"
+                             % ([model["fp"][c][col] for c in cands], got)))
+        elif p["kind"] == "reentry":
+            obs = o.get("obs") or {}
+            op_done = not o.get("blocked")
+            fin_done = op_done or not str(obs.get("finale_after_release", "")).startswith(("W@", "R@"))
+            got = (2 if op_done else 0) + (1 if fin_done else 0)
+            col = ENG_FINALES.index(p["fin"])
+            if p["op"] == "raftlookup":
+                cur, rep = model["re"]["Oraft_current"][col], model["re"]["Oraft"][col]
+                if cur != rep:
+                    if got == rep:
+                        variant = variant or "repaired"
+                    elif got == cur:
+                        variant = "current"
+                ok = got in (cur, rep)
+            else:
+                ok = got == model["re"][coqname[p["op"]]][col]
+            if not op_done:
+                # DIRECT ORACLE: an operation and a close / drop in flight block each other for ever
+                what = ("engine-level re-entry probe: operation `%s` stalled in its partition lookup, `%s` started and waits for "
+                        "EngineImpl.mu.Lock, the operation then waits at %s while the finale waits at %s: deadlock"
+                        % (p["op"], p["fin"], o.get("where"), obs.get("finale_after_release")))
+                if in_reentry_signature(o) and ck.match_finding(REENTRY):
+                    ck.known_finding(REENTRY, what)
+                else:
+                    ck.violation({"kind": "engine-deadlock", "what": what, "probe": p, "observed": obs})
+            elif ok:
+                n_ok += 1
+            else:
+                mism.append((p, o, "re-entry probe: the model says code %s, the engine shows %d" % (model["re"].get(coqname[p["op"]] or "Oraft"), got)))
+        elif p["kind"] == "drain":
+            obs = o.get("obs") or {}
+            if p["op"] == "wait":
+                got = [obs.get("refs_while_query"), 1 if obs.get("drop_waits_at") == "drain" else 0, int(bool(obs.get("offloading_while_waiting"))),
+                       int(bool(obs.get("ref_while_offloading_ok"))), int(bool(obs.get("dir_present_while_waiting"))),
+                       1 if (obs.get("drop_err") == "<nil>" and obs.get("query_err") == "<nil> <nil>") else 0,
+                       int(bool(obs.get("partition_present_after"))), int(bool(obs.get("dir_present_after"))),
+                       int(bool(obs.get("ref_after_drop_ok"))), 0 if not obs.get("write_after_drop_ok") else 1]
+                want = model["drain"]
+            else:
+                got = [int(bool(obs.get("offloading_after_timeout"))), int(bool(obs.get("ref_after_timeout_ok"))), 1, 1,
+                       1 if obs.get("query_err") == "<nil> <nil>" and obs.get("drop_err") not in (None, "<nil>") else 0]
+                want = model["timeout"]
+            if got == want:
+                n_ok += 1
+            else:
+                mism.append((p, o, "drain probe: the model says %s, the engine shows %s" % (want, got)))
+    if mism and not ck.violations:
+        p, o, why = mism[0]
+        ck.broken.append("correspondence C04 (engine level): %d probe(s) disagree with the model; first: %s - %s" % (len(mism), json.dumps(p), why))
+        ck.nofail_detail = {"kind": "engine-correspondence", "probe": p, "harness": o, "why": why}
+    ck.cov["evaluations"] += len(outs)
+    ck.cov["engine_probes"] = {"run": len(outs), "agree": n_ok, "tree_variant": variant}
+    ck.notes.append("engine level: %d probes run, %d agree with the model; partition lookup of WriteToRaft implements: %s"
+                    % (len(outs), n_ok, variant or "undetermined"))
+    return variant
+
+
 def main(ck):
     ck.assumptions += [
         "PARTIAL: data races below lock granularity, Go memory-model effects, scheduler timing and pooled-object reuse are "
@@ -393,7 +579,7 @@ def main(ck):
         return replay(ck)
 
     ck.coq_audit(["C04"])
-    ok = ck.coq_build(["C04/Props.vo", "C04/Mutants.vo", "C04/Refuted.vo", "C04/Corr.vo"], timeout=2400)
+    ok = ck.coq_build(["C04/Props.vo", "C04/Mutants.vo", "C04/Refuted.vo", "C04/Corr.vo", "C04/EngCorr.vo"], timeout=2400)
     if ok:
         ck.coq_props(["C04/Props.v", "C04/Mutants.v", "C04/Refuted.v"])
     bin_sched = ck.go_build("./cmd/c04", "c04-sched")
@@ -499,6 +685,10 @@ def main(ck):
                 ck.broken.append("correspondence C04: forced schedule %s disagrees with model variant `current`" % c["tag"])
                 ck.nofail_detail = {"kind": "correspondence", "case": {"specs": c["specs"], "sched": c["sched"]}, "views": c["obs"]}
 
+    # ---------------------------------------------------------------- (a2) engine / partition level probes
+    if ok:
+        ck.cov["engine_variant"] = eng_level(ck, bin_sched)
+
     # ---------------------------------------------------------------- (b) free-running stress under the race detector
     rounds, ms = (30, 20000) if thorough else (2, 8000)
     racelog = os.path.join(ck.work, "race")
@@ -579,9 +769,15 @@ def main(ck):
 
 def replay(ck):
     rp = json.load(open(ck.replay))
-    ok = ck.coq_build(["C04/Corr.vo"])
+    ok = ck.coq_build(["C04/Corr.vo", "C04/EngCorr.vo"])
     binp = ck.go_build("./cmd/c04", "c04-sched")
     if not binp:
+        return
+    if "probe" in rp:
+        p = dict(rp["probe"])
+        p["id"] = 0
+        if ok:
+            eng_level(ck, binp, only=[p])
         return
     if "case" in rp:
         c = {"specs": [tuple(a) for a in rp["case"]["specs"]], "sched": rp["case"]["sched"], "tag": "replay"}
